@@ -31,7 +31,22 @@ func (w *WriteSet) addKeys(ks []string) {
 
 func (w *WriteSet) union(o *WriteSet) {
 	if o.all {
-		w.setAll(o.why)
+		if !w.all {
+			w.all = true
+			w.why = o.why
+			w.except = append([]string{}, o.except...)
+		} else {
+			// both havoc everything: only prefixes spared by both stay spared
+			var keep []string
+			for _, p := range w.except {
+				for _, q := range o.except {
+					if p == q {
+						keep = append(keep, p)
+					}
+				}
+			}
+			w.except = keep
+		}
 	}
 	for k := range o.keys {
 		w.keys[k] = true
@@ -39,6 +54,28 @@ func (w *WriteSet) union(o *WriteSet) {
 	if o.alloc {
 		w.alloc = true
 	}
+	w.dropTouchedExceptions()
+}
+
+// dropTouchedExceptions: a spared prefix that some explicitly written key falls under is no longer spared.
+func (w *WriteSet) dropTouchedExceptions() {
+	if !w.all || len(w.except) == 0 {
+		return
+	}
+	var keep []string
+	for _, p := range w.except {
+		touched := false
+		for k := range w.keys {
+			if strings.HasPrefix(k, p) {
+				touched = true
+				break
+			}
+		}
+		if !touched {
+			keep = append(keep, p)
+		}
+	}
+	w.except = keep
 }
 
 func (w *WriteSet) setAll(why string) {
